@@ -27,6 +27,7 @@
 //! op 3403  -> 0 nmod (file name, text)*nmod as length-prefixed strings | 1 stage kind | 2 stage class
 //! op 3410 kind name.. -> 0 mangled..      the crate's own name mangling functions (kind: see `op_3410`)
 //! op 3412 <aty>       -> 0 <tokens of the printed attribute> <0 <re-parsed type> | 1>   (coq/Extract/OpsCodegen.v run_attr)
+//! op 3413 ctx ..      -> 0 <tokens of the whole printed attribute> <what parse_asn_definition shows of it> (run_attr_item)
 //! op 3411 name..      -> 0 ident keyword   Rust lexical facts according to proc_macro2 / syn (see `op_3411`)
 use crate::I;
 use asn1rs_model::asn::{Charset, MultiModuleResolver, Size, Tag, TagProperty};
@@ -1076,6 +1077,262 @@ fn op_3412(a: &[I]) -> Vec<I> {
     out
 }
 
+// ------------------------------------------------------------------ op 3413: the whole attribute
+// (encoding: see coq/Extract/OpsCodegen.v run_attr_item)
+
+impl<'a> Rd<'a> {
+    fn tagopt(&mut self) -> Option<Option<Tag>> {
+        Some(match self.i()? {
+            0 => None,
+            1 => {
+                let c = self.i()?;
+                let n = usize::try_from(self.i()?).ok()?;
+                Some(match c {
+                    0 => Tag::Universal(n),
+                    1 => Tag::Application(n),
+                    2 => Tag::ContextSpecific(n),
+                    3 => Tag::Private(n),
+                    _ => return None,
+                })
+            }
+            _ => return None,
+        })
+    }
+    fn count(&mut self) -> Option<usize> {
+        let n = self.i()?;
+        if n < 0 || n as usize > self.a.len() - self.p {
+            return None;
+        }
+        Some(n as usize)
+    }
+    fn consts(&mut self) -> Option<Vec<(String, i128)>> {
+        let n = self.count()?;
+        let mut v = Vec::new();
+        for _ in 0..n {
+            let s = self.s()?;
+            v.push((s, self.i()?));
+        }
+        Some(v)
+    }
+}
+
+fn attr_tokens(attrs: &[syn::Attribute]) -> Option<proc_macro2::TokenStream> {
+    let attr = attrs.iter().find(|a| is_asn_attr(a))?;
+    match &attr.meta {
+        syn::Meta::List(list) => Some(list.tokens.clone()),
+        _ => None,
+    }
+}
+
+fn dump_tokens(out: &mut Vec<I>, ts: proc_macro2::TokenStream) -> bool {
+    out.push(ts.clone().into_iter().count() as I);
+    e_tokens(out, ts)
+}
+
+/// generated text of one definition -> (syn file, the item with its `#[asn(..)]` header split off)
+fn generated_item(def: &Definition<Rust>) -> Result<(syn::File, proc_macro2::TokenStream, proc_macro2::TokenStream), Vec<I>> {
+    let mut scope = codegen_scope();
+    RustCodeGenerator::default().add_definition(&mut scope, def);
+    let text = scope.to_string();
+    let Ok(file) = syn::parse_file(&text) else { return Err(vec![1, 5]) };
+    let Some((outer, body)) = asn_items(&file).into_iter().next() else { return Err(vec![1, 6]) };
+    Ok((file, outer, body))
+}
+
+fn reparse_item(outer: proc_macro2::TokenStream, body: proc_macro2::TokenStream) -> Option<asn1rs_model::proc_macro::AsnModelType> {
+    match silenced(|| asn1rs_model::proc_macro::parse_asn_definition(outer, body).map(|(d, _)| d)) {
+        Ok(Some(Definition(_, asn))) => Some(asn),
+        _ => None,
+    }
+}
+
+fn op_3413_header(rd: &mut Rd) -> Vec<I> {
+    use asn1rs_model::asn::Type;
+    use asn1rs_model::rust::{DataVariant, Field, PlainEnum};
+    let Some(kind) = rd.i() else { return vec![-2] };
+    if !(0..=4).contains(&kind) {
+        return vec![-2];
+    }
+    let Some(tag) = rd.tagopt() else { return vec![-2] };
+    let Some(ext) = rd.i() else { return vec![-2] };
+    let Some(n) = rd.count() else { return vec![-2] };
+    let mut names = Vec::new();
+    for _ in 0..n {
+        let Some(s) = rd.s() else { return vec![-2] };
+        names.push(s);
+    }
+    if rd.p != rd.a.len() || ext < -1 {
+        return vec![-2];
+    }
+    let ext = if ext < 0 { None } else { Some(usize::try_from(ext).unwrap_or(usize::MAX)) };
+    let rust = match kind {
+        0 | 1 => Rust::Struct {
+            ordering: if kind == 0 { EncodingOrdering::Keep } else { EncodingOrdering::Sort },
+            fields: names.iter().map(|n| Field::from_name_type(n, RustType::Bool)).collect(),
+            tag,
+            extension_after: ext,
+        },
+        2 => Rust::DataEnum(
+            asn1rs_model::rust::DataEnum::from(names.iter().map(|n| DataVariant::from_name_type(n, RustType::Bool)).collect::<Vec<_>>())
+                .with_extension_after(ext)
+                .with_tag_opt(tag),
+        ),
+        3 => Rust::Enum(PlainEnum::from_names(names.iter()).with_extension_after(ext).with_tag_opt(tag)),
+        _ => Rust::TupleStruct { r#type: RustType::Bool, tag, constants: Vec::new() },
+    };
+    let def = Definition("T".to_string(), rust);
+    let (_file, outer, body) = match generated_item(&def) {
+        Ok(v) => v,
+        Err(e) => return e,
+    };
+    let mut out = vec![0];
+    if !dump_tokens(&mut out, outer.clone()) {
+        return vec![1, 7];
+    }
+    match reparse_item(outer, body) {
+        Some(asn) => {
+            let (k, e) = match &asn.r#type {
+                Type::Sequence(c) => (0, c.extension_after),
+                Type::Set(c) => (1, c.extension_after),
+                Type::Choice(c) => (2, c.extension_after_index()),
+                Type::Enumerated(e) => (3, e.extension_after_index()),
+                _ => (4, None),
+            };
+            out.extend([0, k]);
+            // the macro derives a default tag for a CHOICE whose attribute carries none: not the attribute's tag
+            p_tag(&mut out, if k == 2 && tag.is_none() { None } else { asn.tag });
+            out.push(e.map_or(-1, |v| v as I));
+        }
+        None => out.push(1),
+    }
+    out
+}
+
+fn op_3413_field(ctx: I, rd: &mut Rd) -> Vec<I> {
+    use asn1rs_model::asn::Type;
+    use asn1rs_model::rust::{DataVariant, Field};
+    let Some(ty) = rd.ty() else { return vec![-2] };
+    let tag = if ctx == 3 {
+        None
+    } else {
+        let Some(t) = rd.tagopt() else { return vec![-2] };
+        t
+    };
+    let consts = if ctx == 2 {
+        Vec::new()
+    } else {
+        let Some(c) = rd.consts() else { return vec![-2] };
+        c
+    };
+    if rd.p != rd.a.len() {
+        return vec![-2];
+    }
+    let constants: Vec<(String, String)> = consts.iter().map(|(n, v)| (n.clone(), v.to_string())).collect();
+    let rust = match ctx {
+        1 => Rust::Struct {
+            ordering: EncodingOrdering::Keep,
+            fields: vec![Field::from_name_type("f", ty).with_constants(constants).with_tag_opt(tag)],
+            tag: None,
+            extension_after: None,
+        },
+        2 => Rust::DataEnum(asn1rs_model::rust::DataEnum::from(vec![DataVariant::from_name_type("V", ty).with_tag_opt(tag)])),
+        _ => Rust::TupleStruct { r#type: ty, tag: None, constants },
+    };
+    let def = Definition("T".to_string(), rust);
+    let (file, outer, body) = match generated_item(&def) {
+        Ok(v) => v,
+        Err(e) => return e,
+    };
+    let inner = match file.items.first() {
+        Some(syn::Item::Struct(s)) => s.fields.iter().next().and_then(|f| attr_tokens(&f.attrs)),
+        Some(syn::Item::Enum(e)) => e.variants.iter().next().and_then(|v| attr_tokens(&v.attrs)),
+        _ => None,
+    };
+    let Some(inner) = inner else { return vec![1, 6] };
+    let mut out = vec![0];
+    if !dump_tokens(&mut out, inner) {
+        return vec![1, 7];
+    }
+    let member = reparse_item(outer, body).and_then(|asn| match asn.r#type {
+        Type::Sequence(c) if ctx == 1 => c.fields.into_iter().next().map(|f| f.role),
+        Type::Choice(c) if ctx == 2 => c.variants().next().map(|v| asn1rs_model::proc_macro::AsnModelType {
+            tag: v.tag,
+            r#type: v.r#type.clone(),
+            default: None,
+        }),
+        other if ctx == 3 => Some(asn1rs_model::proc_macro::AsnModelType { tag: asn.tag, r#type: other, default: None }),
+        _ => None,
+    });
+    match member {
+        Some(m) => {
+            let mut o = vec![0];
+            if e_asn(&mut o, &m.r#type) {
+                p_tag(&mut o, m.tag);
+                let mut t = &m.r#type;
+                while let Type::Optional(inner) = t {
+                    t = inner;
+                }
+                match t {
+                    Type::Integer(i) => {
+                        o.push(i.constants.len() as I);
+                        for (n, v) in &i.constants {
+                            p_str(&mut o, n);
+                            o.push(*v as I);
+                        }
+                    }
+                    _ => o.push(0),
+                }
+                out.extend(o);
+            } else {
+                out.push(1);
+            }
+        }
+        None => out.push(1),
+    }
+    out
+}
+
+/// `#[asn(<number>)]` on an ENUMERATED variant is never printed by the generator: the item is written here
+fn op_3413_enum_variant(rd: &mut Rd) -> Vec<I> {
+    use asn1rs_model::asn::Type;
+    let num = match (rd.i(), rd.i()) {
+        (Some(0), None) => None,
+        (Some(1), Some(n)) if n >= 0 => Some(n),
+        _ => return vec![-2],
+    };
+    if rd.p < rd.a.len() {
+        return vec![-2];
+    }
+    let text = format!("#[asn(enumerated)] pub enum T {{ #[asn({})] A, }}", num.map(|n| n.to_string()).unwrap_or_default());
+    let Ok(file) = syn::parse_file(&text) else { return vec![1, 5] };
+    let Some(syn::Item::Enum(e)) = file.items.first() else { return vec![1, 6] };
+    let Some(inner) = e.variants.iter().next().and_then(|v| attr_tokens(&v.attrs)) else { return vec![1, 6] };
+    let mut out = vec![0];
+    if !dump_tokens(&mut out, inner) {
+        return vec![1, 7];
+    }
+    let Some((outer, body)) = asn_items(&file).into_iter().next() else { return vec![1, 6] };
+    match reparse_item(outer, body) {
+        Some(asn1rs_model::proc_macro::AsnModelType { r#type: Type::Enumerated(e), .. }) => match e.variants().next().map(|v| v.number()) {
+            Some(Some(n)) => out.extend([0, 1, n as I]),
+            Some(None) => out.extend([0, 0]),
+            None => out.push(1),
+        },
+        _ => out.push(1),
+    }
+    out
+}
+
+fn op_3413(a: &[I]) -> Vec<I> {
+    let mut rd = Rd { a, p: 0 };
+    match rd.i() {
+        Some(0) => op_3413_header(&mut rd),
+        Some(c @ 1..=3) => op_3413_field(c, &mut rd),
+        Some(4) => op_3413_enum_variant(&mut rd),
+        _ => vec![-2],
+    }
+}
+
 fn codegen_scope() -> codegen::Scope {
     codegen::Scope::new()
 }
@@ -1106,6 +1363,7 @@ pub fn run(op: I, a: &[I]) -> Vec<I> {
         3410 => op_3410,
         3411 => op_3411,
         3412 => op_3412,
+        3413 => op_3413,
         _ => return vec![-1],
     };
     let mut v = match crate::catch(|| f(a)) {
